@@ -86,7 +86,7 @@ class FitWorld(object):
                 self.fn = ref.MODELS[self.model_key]
                 self.fit = k2.XYFit([x, y], self.fn, cost_function=self.cost_id, dynamic_error_algorithm=self.dea, **kw)
             elif self.ftype == "indexed":
-                self.fn = ref.make_indexed_model(self.n, 3 if self.model_key == "idx3" else 2)
+                self.fn = ref.make_idx_ad(self.n) if self.model_key == "idx_ad" else ref.make_indexed_model(self.n, 3 if self.model_key == "idx3" else 2)
                 self.fit = k2.IndexedFit(y, self.fn, cost_function=self.cost_id, dynamic_error_algorithm=self.dea, **kw)
             elif self.ftype == "hist":
                 self.fn = ref.normal_density
